@@ -242,6 +242,11 @@ def tlc_model(cfg_dir, module, cfg=None, workers=NCPU, timeout=1500, extra=(), x
     ms = STATS_RE.findall(o)
     states, distinct = (int(ms[-1][0]), int(ms[-1][1])) if ms else (0, 0)
     ok = rc == 0 and 'No error has been found' in o
+    if '-simulate' in extra:
+        # random behaviours of the model (long histories): no "no error" banner, no distinct-state count
+        m = re.search(r'The number of states generated: (\d+)', o)
+        states = distinct = int(m.group(1)) if m else 0
+        ok = rc == 0 and 'Error:' not in o and states > 0
     return dict(ok=ok, rc=rc, states=states, distinct=distinct, out=o)
 
 
@@ -263,7 +268,7 @@ def run_trace_check(ops_lines, module='TraceUrl', config='default', tag='run', n
     os.makedirs(work)
     exe = build(config, main)
     # a TLC start costs ~8 s of CPU (JVM + parsing the specification): do not split small workloads 16 ways
-    per_shard = {'TracePattern': 60, 'TraceIdna': 150, 'TraceSched': 50}.get(module, 400)
+    per_shard = {'TracePattern': 60, 'TraceIdna': 150, 'TraceSched': 50, 'TraceCApi': 600}.get(module, 400)
     nshards = max(1, min(nshards, len(ops_lines) // per_shard))
     shards = split_ops(ops_lines, nshards)
 
